@@ -30,7 +30,9 @@ ASSUMPTIONS = [
 SOURCE_FILES = ["barter-instrument/src/index/mod.rs", "barter-instrument/src/index/builder.rs",
                 "barter/src/engine/state/instrument/mod.rs", "barter/src/engine/state/asset/mod.rs",
                 "barter/src/engine/state/connectivity/mod.rs", "barter/src/engine/state/builder.rs",
-                "barter/src/execution/builder.rs"]
+                "barter/src/execution/builder.rs", "barter-instrument/src/instrument/mod.rs", "barter-instrument/src/instrument/kind/mod.rs",
+                "barter-instrument/src/instrument/spec.rs", "barter-instrument/src/asset/mod.rs", "barter-instrument/src/lib.rs", "barter-instrument/src/index/error.rs"]
+PREBUILD = [["python3", "tools/rust2lean_sm.py", "--require", "indexer"]]
 CLAIM = True
 TECHNIQUE = ("Lean 4: sorted-duplicate-free lists are determined by their member set (strict_ext) under an injective sort key => order independence; enumerate gives "
              "key = position; first-match lookups over duplicate-free tables are inverses of positional reads; IndexMap collection of distinct keys is the identity; "
@@ -58,5 +60,10 @@ LEVEL_NOTE = ("Trusted: Lean kernel; axioms propext/Classical.choice/Quot.sound 
               "tied to the code by sampled correspondence (300 quick / 10k random + every insertion order of 32 collections of <= 5 definitions thorough) through the real "
               "IndexedInstruments, EngineState builder and ExecutionBuilder; harness and driver. Hypotheses WFAssets (asset internal name determines the asset within an exchange) "
               "and WFNames (instrument internal names unique) are needed only for the clauses listed; at the excluded points the code mis-resolves / collapses IndexMap entries "
-              "(documented precondition, model and code agree there). Transmitter identity is not observed (only presence per slot).")
+              "(documented precondition, model and code agree there). Transmitter identity is not observed (only presence per slot). "
+              "IndexedInstrumentsBuilder::{add_instrument, build}, IndexedInstruments::{new, find_* (6)}, the two free lookups, Instrument::{map_exchange_key, map_asset_key_with_lookup} and InstrumentKind::settlement_asset are additionally "
+              "regenerated from the source by tools/rust2lean_sm.py (Generated/Machines4.lean, group indexer; sort() = stable List.mergeSort by an explicit ordering parameter, dedup() = adjacent dedup, iterator chains = list functions, "
+              "the two expect()s = Rust.unreachable) and proved, for every injective coding of decimals / instants as the model's Nats, to be the model's addInstrument / lookups / mapAssetKeyWithLookup (no hypothesis) and the model's "
+              "Builder.build / build under the one hypothesis that the three UNTRANSLATED #[derive(Ord)] orderings are the lexicographic orders the model's sort keys spell out (index_builder_agrees_with_source); the translator, its prelude "
+              "and the stated meaning of the iterator / sort vocabulary are trusted for that tie.")
 SUBCHECKS = ["C11N"]
